@@ -31,7 +31,7 @@ REAL_STUB = "real: all yastn code incl. the three tensordot kernels, both fusion
 ASSUMPTIONS = ["where the fusion MODE differs between executions, fused legs are different representations by design: comparison is made after complete unfusing",
                "factorisations enter programs only through gauge-free recombinations (U S V, Q R, U S U^dagger)",
                "get_blocks_charge/get_blocks_shape/'in' expose native storage order by documentation and are not compared"]
-WALL_CAP = 300
+WALL_CAP = 1200
 CHUNK = 8
 
 WEIGHTS = dict(e1.DEFAULT_WEIGHTS)
